@@ -476,6 +476,7 @@ static FILE *open_file(fb_options_t *opts, fb_schema_t *S)
     ext = fb_create_path_ext(".", flatbuffers_extension);
     /* We generally should not use cgen options here, but in this case it makes sense. */
     if (opts->gen_stdout) {
+        free(ext);
         return stdout;
     }
     if (opts->gen_outfile) {
